@@ -41,6 +41,11 @@ type c13errs []string
 
 func (e c13errs) Error() string { return strings.Join(e, "; ") }
 
+// c13empty is an error with an empty text.
+type c13empty struct{}
+
+func (c13empty) Error() string { return "" }
+
 type c13err struct{ w string }
 
 func (e c13err) Error() string { return "custom failure on " + e.w }
@@ -78,7 +83,13 @@ func (f *faultW) Write(p []byte) (int, error) {
 		w.attempts = append(w.attempts, a)
 		// destinations fail with errors of different concrete types, some after a short write
 		w.nfail++
-		switch w.nfail % 9 {
+		switch w.nfail % 12 {
+		case 9: // nothing taken and no error reported (a rate-limited or disconnected sink)
+			return 0, nil
+		case 10: // all but the last byte taken and no error reported
+			return len(p) - 1, nil
+		case 11: // an error whose text is empty
+			return 0, c13empty{}
 		case 7, 8: // two failures in a row with errors of the same uncomparable type
 			return 0, c13errs{"uncomparable", f.name}
 		case 4:
@@ -108,7 +119,8 @@ type c13case struct {
 	Bound   int   `json:"bound"`
 }
 
-var c13configs = []string{"1 normal + 1 error writer", "2 normal + 2 error writers", "2+2 and a per-level writer for Info", "one writer in both the normal and the error list (+1 each)", "4 normal + 4 error writers", "a logger without writers of its own: the package-level default writer set (1 normal + 1 error writer)", "1 normal + 1 error writer, and in both lists a library file writer (NewFileWriter) that was closed: it fails every Write"}
+var c13configs = []string{"1 normal + 1 error writer", "2 normal + 2 error writers", "2+2 and a per-level writer for Info", "one writer in both the normal and the error list (+1 each)", "4 normal + 4 error writers", "a logger without writers of its own: the package-level default writer set (1 normal + 1 error writer)", "1 normal + 1 error writer, and in both lists a library file writer (NewFileWriter) that was closed: it fails every Write",
+	"a front logger whose normal and error writer is the std-log bridge (NewLogLogger(back, Info).Writer()) into a back logger with 1 normal + 1 error writer: the calls are issued on the front logger"}
 
 var c13classes = []struct {
 	name string
@@ -123,6 +135,7 @@ const c13firstBridged = 6
 
 type c13setup struct {
 	closedFile bool // an always-failing closed file writer is a member of the normal and of the error list
+	bridged    bool // configuration 7: every record of the front logger becomes an Info record of the back logger
 	l          *slog.Entry
 	std        *log.Logger
 	hl         *logslog.Logger
@@ -178,6 +191,13 @@ func c13build(w *c13world, config int, level slog.Level) *c13setup {
 			l.AddWriter(fw).AddErrorWriter(fw)
 			st.closedFile = true
 		}
+	case 7:
+		back := slog.VerifEntryOf(slog.New("back"))
+		back.SetWriter(mk("n1")).SetErrorWriter(mk("e1")).SetLevel(slog.TraceLevel).SetColorMode(false)
+		bridge := slog.NewLogLogger(back, slog.InfoLevel).Writer()
+		l.SetWriter(bridge).SetErrorWriter(bridge)
+		st.normal, st.errw = []string{"n1"}, []string{"n1"} // whatever its class on the front logger, a record arrives as an Info record of the back logger
+		st.bridged = true
 	case 3:
 		sh := mk("shared")
 		l.SetWriter(sh).AddWriter(mk("n2")).SetErrorWriter(sh).AddErrorWriter(mk("e2"))
@@ -238,6 +258,10 @@ func c13check(cas c13case, w *c13world, st *c13setup, x *sched.Execution, level 
 	customs := map[slog.Level]slog.Level{c13Swell: slog.ErrorLevel}
 	warnAdmitted, _ := refAdmit(level, slog.WarnLevel, false, customs)
 	warnSel := st.selected(slog.WarnLevel)
+	if st.bridged {
+		// the write fails in the back logger (level Trace): its diagnostic goes to its own warning destination
+		warnAdmitted, warnSel = true, []string{"e1"}
+	}
 	ncalls := len(cas.Seq) + len(c13classes) // the sequence + the fault-free probes
 	for ci := 0; ci < ncalls; ci++ {
 		var sev slog.Level
@@ -249,6 +273,9 @@ func c13check(cas c13case, w *c13world, st *c13setup, x *sched.Execution, level 
 		}
 		admitted, _ := refAdmit(level, sev, false, customs)
 		sel := st.selected(sev)
+		if st.bridged && sev == slog.AlwaysLevel {
+			continue // a blank Print does not cross the bridge as a bare newline: not issued in this configuration
+		}
 		own := map[string]int{}
 		anyFailed := false
 		diagPerWriter := map[string]int{}
@@ -305,8 +332,8 @@ func c13check(cas c13case, w *c13world, st *c13setup, x *sched.Execution, level 
 		}
 		// diagnostics
 		maxDiag := 0
-		if anyFailed && sev != slog.WarnLevel && warnAdmitted {
-			maxDiag = 1
+		if anyFailed && (sev != slog.WarnLevel || st.bridged) && warnAdmitted {
+			maxDiag = 1 // (bridged: the record that fails is the back logger's Info record, whatever it was on the front logger)
 		}
 		wsel := map[string]int{}
 		for _, n := range warnSel {
@@ -347,6 +374,9 @@ func c13runOne(cas c13case, prefix []int) (*sched.Execution, *c13world, *c13setu
 				msg = ""
 			}
 			w.msgs = append(w.msgs, msg)
+			if st.bridged && c == 3 {
+				continue
+			}
 			c13issue(st, c, msg)
 		}
 		// recovery: the destinations work again
@@ -359,6 +389,9 @@ func c13runOne(cas c13case, prefix []int) (*sched.Execution, *c13world, *c13setu
 				msg = ""
 			}
 			w.msgs = append(w.msgs, msg)
+			if st.bridged && j == 3 {
+				continue
+			}
 			c13issue(st, j, msg)
 		}
 	}
@@ -441,9 +474,25 @@ func c13run(c *Ctx) {
 	rec(nil)
 	n := 0
 	maxPoints := 0
+	testMode := slog.VerifInTesting()
+	c.Info("go_test_mode", testMode)
 	for cfg := range c13configs {
 		for _, lv := range []slog.Level{slog.ErrorLevel, slog.WarnLevel, slog.InfoLevel, slog.TraceLevel} {
+			if testMode && (cfg != 0 && cfg != 1 && cfg != 7 || lv != slog.InfoLevel && lv != slog.TraceLevel) {
+				continue // the go-test-mode pass (the diagnostic carries a multi-line error dump there): three configurations, two levels
+			}
 			for _, seq := range seqs {
+				if cfg == 7 {
+					skip := false
+					for _, cl := range seq {
+						if cl == 3 {
+							skip = true
+						}
+					}
+					if skip {
+						continue
+					}
+				}
 				n++
 				if !c.Mine(n) || c.Expired() {
 					continue
